@@ -725,20 +725,71 @@ func cmdReplay(args []string) {
 	if err != nil {
 		fatal(2, "%v", err)
 	}
-	bin, tmp, err := nativeBinary()
-	if tmp != "" {
-		defer os.RemoveAll(tmp)
+	// 1. re-execute the recorded decision vector in the executor, against
+	//    /repo as it is now
+	reg := loadRegistry()
+	var spec *HarnessSpec
+	var opts TierOpts
+	for _, ps := range reg {
+		for n := range ps.Harnesses {
+			if ps.Harnesses[n].Fn == rf.Harness {
+				spec = &ps.Harnesses[n]
+			}
+		}
 	}
+	if ps, ok := reg[rf.Property]; ok {
+		for n := range ps.Harnesses {
+			if ps.Harnesses[n].Fn == rf.Harness {
+				spec = &ps.Harnesses[n]
+			}
+		}
+	}
+	if spec != nil {
+		opts = spec.Quick
+		if rf.Tier == 1 {
+			opts = spec.Thorough
+		}
+	}
+	ld := loadProgram()
+	known := map[string]bool{}
+	for _, k := range loadKnown() {
+		if k.Status == "open" {
+			known[k.ID] = true
+		}
+	}
+	cfg := &interp.Config{Prog: ld.prog, Target: ld.target, Sizes: types.SizesFor("gc", "amd64"), Z3: envOr("VX_Z3", "/usr/bin/z3"),
+		Workers: 1, Preempt: opts.Preempt, PermuteMaps: opts.PermuteMaps, SelectFork: opts.SelectFork, Trace: opts.Trace,
+		Known: known, Tier: rf.Tier, SymbolicChoices: true}
+	cfg.Prepare()
+	entry, err := interp.Entry(cfg, rf.Harness)
 	if err != nil {
 		fatal(2, "%v", err)
 	}
-	nr, out, err := runNative(bin, args[0])
-	if err != nil {
-		fmt.Println(out)
-		fatal(2, "%v", err)
+	res := interp.NewExplorer(cfg, entry).RunOne(&interp.PathSpec{Dec: rf.Dec, Model: rf.ModelAll})
+	fmt.Printf("symbolic re-execution of %s on the current /repo: %s %s %s\n", rf.Harness, res.Kind, res.Label, res.Msg)
+	symViol := res.Kind == "violation" || res.Kind == "panic" || res.Kind == "deadlock"
+	// 2. native replay where the harness supports it
+	natViol := false
+	if spec == nil || !spec.NoNative {
+		bin, tmp, err := nativeBinary()
+		if tmp != "" {
+			defer os.RemoveAll(tmp)
+		}
+		if err != nil {
+			fatal(2, "%v", err)
+		}
+		nr, out, err := runNative(bin, args[0])
+		if err != nil {
+			fmt.Println(out)
+			fatal(2, "%v", err)
+		}
+		fmt.Printf("native replay of %s (%s %s): failed=%v panic=%q done=%v\n", rf.Harness, rf.Kind, rf.Label, nr.Failed, nr.Panic, nr.Done)
+		natViol = len(nr.Failed) > 0 || nr.Panic != "" || !nr.Done
+	} else {
+		fmt.Printf("harness %s is not natively replayable (schedule / crash-model / race witness)\n", rf.Harness)
+		natViol = symViol
 	}
-	fmt.Printf("replay of %s (%s %s) on the native build: failed=%v panic=%q done=%v\n", rf.Harness, rf.Kind, rf.Label, nr.Failed, nr.Panic, nr.Done)
-	if len(nr.Failed) > 0 || nr.Panic != "" || !nr.Done {
+	if symViol && natViol {
 		fmt.Printf("VIOLATION property=%s replay=%s\n", rf.Property, args[0])
 		os.Exit(1)
 	}
